@@ -8,6 +8,13 @@ Streams
                 state machine (Model/Caches via Drivers/C08): item replaced <=> text changed, item
                 ordinal, the cache node every lookup is keyed on, hit/miss of every distinct lookup,
                 key set of the derived cache after a collection.
+  tree-source   where the Script's tree comes from: a probe on parso's Grammar.parse records every
+                question put to parso while a Script is constructed and parso's answer; the Script
+                must ask exactly once, hold the node parso returned, and that node's content must be
+                the from-scratch parse (model: obtainTree = parseBuffer, `asked` of every script step
+                compared with the driver).  The premise of the property (parso's promise) is judged
+                on parso's own answers, so a step in which jedi does not use parso's answer (a
+                remembered node) is judged by the oracle, not excused.
   derived-value every probed lookup result vs its uncached computation on a from-scratch parse of
                 the current text (python side only)
   sig-cache     entries of _time_caches['call_signatures_validity'] never hit (model: fresh key)
@@ -30,17 +37,23 @@ LEAN_TARGETS = ['JediModel.Props.C08', 'JediModel.Drivers.C08']
 MANIFEST = dict(
     text='Lean state machine of one process (parser-cache items with generation numbers, module nodes '
          'mutated in place by the diff parser, the two derived caches keyed weakly on the item, the '
-         'per-Script memo, the signature time cache with a logical clock). Proved for ALL histories and '
+         'per-Script memo, the signature time cache with a logical clock, and where Script.__init__ takes '
+         'its tree from: obtainTree/remembered with the decision treeMemo read from the source). Proved for ALL histories and '
          'all queries routed through these caches: the invariant (entries under a live item equal the '
          'direct computation; the item under the newest Script carries the current text), history '
          'independence (answer = query evaluated on a from-scratch parse = answer of a fresh process), '
-         'no internal error; kernel-checked witnesses that keying on the tree / a comparable signature '
+         'no internal error, the tree of every Script is parso\'s answer for this construction '
+         '(script_tree_from_parser), returning to an earlier text at any distance is answered like a fresh '
+         'process (undo_redo_independent_partial); kernel-checked witnesses that a table of remembered '
+         'module nodes (stale_if_script_remembers_trees), keying on the tree / a comparable signature '
          'key / a shared memo / cache=True for the buffer each break it. The design decisions are read '
          'from the source by the translator (Gen.C08.cfg) and the theorems are stated over them. Tie: '
-         'probed correspondence of the real cache state against the model on generated edit histories, '
+         'probed correspondence of the real cache state against the model on generated edit histories '
+         '(half of them revisit-rich: undo/redo along an undo stack, revert to any earlier version, toggling), '
+         'a probe on parso\'s Grammar.parse for the source of every Script\'s tree (stream tree-source), '
          'plus the direct oracle (history process vs empty-cache process vs brand-new interpreter).',
     note='Modelled not verified: parso diff parser == from-scratch parse (the property\'s premise; checked '
-         'per step, steps where it fails are counted and not judged), what a lookup computes on a tree, '
+         'per step on parso\'s own answers, steps where it fails are counted and not judged), what a lookup computes on a tree, '
          'CPython weakref/gc timing. The 10-minute environment cache is not exercised.',
     technique='Lean 4 proof over hand-written state machine + translator-extracted design decisions + '
               'probed differential correspondence + fresh-process oracle',
@@ -140,6 +153,36 @@ def _ensure_disk_file(path, text):
         f.write(text)
     os.utime(tmp, (1500000000, 1500000000))
     os.replace(tmp, path)
+
+
+class ParsoProbe:
+    """records what parso itself was asked and what it returned (wrapper around Grammar.parse, no
+    source edit).  The premise of the property is a promise of PARSO - the tree it hands out for a
+    text equals a from-scratch parse of that text - so it is judged on parso's own results, not on
+    whatever tree a Script ends up holding: a Script that does not take its tree from parso in a
+    step (a remembered node, ...) is not excused by it."""
+    inst = None
+
+    def __init__(self):
+        from parso.grammar import Grammar
+        self.calls = None
+        orig = Grammar.parse
+        me = self
+
+        def parse(self_, code=None, **kwargs):
+            node = orig(self_, code, **kwargs)
+            if me.calls is not None:
+                # dumped now: the diff parser mutates this very object on the next re-parse
+                me.calls.append({'code': code, 'path': kwargs.get('path'), 'node': node,
+                                 'dump': _tree_dump(node) if isinstance(code, str) else None})
+            return node
+        Grammar.parse = parse
+
+    @classmethod
+    def get(cls):
+        if cls.inst is None:
+            cls.inst = ParsoProbe()
+        return cls.inst
 
 
 class _FakeTime:
@@ -256,6 +299,7 @@ def run_history(item):
     from jedi import parser_utils
     from jedi.cache import _time_caches
     probes = Probes.get() if item.get('probe', True) else None
+    pprobe = ParsoProbe.get()
     if probes:
         probes.items = []      # ordinals are per history
     # the clock of jedi/cache.py (time caches) is a logical one the history controls
@@ -274,6 +318,7 @@ def run_history(item):
             _ensure_disk_file(path, item['texts'][0])
     steps = []
     script = None
+    tainted = []
     for si, text in enumerate(item['texts']):
         rec = {}
         script = None
@@ -281,7 +326,11 @@ def run_history(item):
             probes.trace = None
             probes.sig_trace = None
         clock.now += ticks[si]
-        script = jedi.Script(text, path=path)
+        pprobe.calls = []
+        try:
+            script = jedi.Script(text, path=path)
+        finally:
+            pcalls, pprobe.calls = pprobe.calls, None
         grammar = script._inference_state.grammar
         key = script.path
         it = parser_cache.get(grammar._hashed, {}).get(key)
@@ -293,9 +342,22 @@ def run_history(item):
         if it is not None:
             rec['lines_ok'] = it.lines == parso.split_lines(text, keepends=True)
             rec['node_ok'] = it.node is script._module_node
-        # the property's premise: the incrementally parsed tree equals a from-scratch parse
+        # the property's premise: the tree parso hands out (incrementally re-parsed, or its cached
+        # node) equals a from-scratch parse.  Judged on every answer parso gave while this Script
+        # was constructed; when parso was not asked at all its promise cannot have failed.
         fresh = parso.parse(text)
-        rec['premise_ok'] = _tree_dump(script._module_node) == _tree_dump(fresh)
+        fresh_dump = _tree_dump(fresh)
+        rec['asked'] = len(pcalls)
+        rec['tree_from_parso'] = any(c['node'] is script._module_node for c in pcalls)
+        bad_calls = [c for c in pcalls if c['dump'] is not None and c['dump'] != (
+            fresh_dump if c['code'] == text else _tree_dump(parso.parse(c['code'])))]
+        tainted += [c['node'] for c in bad_calls]     # node objects parso once got wrong (kept alive)
+        rec['premise_ok'] = not bad_calls and not (
+            not rec['tree_from_parso'] and any(n is script._module_node for n in tainted))
+        # what the Script holds (not a premise: a tree that differs although parso kept its promise
+        # is exactly what the property forbids)
+        rec['tree_ok'] = _tree_dump(script._module_node) == fresh_dump
+        del pcalls
         # queries
         if probes:
             probes.trace = []
@@ -424,7 +486,12 @@ def gen_histories(ctx, n, rng_name='hist'):
         length = rng.randint(1, 5) if r < 0.5 else rng.randint(6, 12) if r < 0.85 else rng.randint(13, 30)
         if ctx.quick and length > 10:
             length = rng.randint(7, 10)
-        hist = histories.history(rng, length)
+        # every other history is revisit-rich: it returns to earlier states of the buffer (undo,
+        # redo, revert at any distance, toggling), the others only through the rare `undo` edit
+        revisit = [0.0, 0.35, 0.0, 0.6][i % 4]
+        if revisit and length < 4:
+            length += 3
+        hist = histories.history(rng, length, revisit)
         mode = ['nopath', 'path', 'disk'][i % 3]
         texts = [t for _, t in hist]
         npos = 2 if ctx.quick else 4
@@ -525,10 +592,12 @@ def compare_model(ctx, h, res, ans):
         i += 1
         case = {'hid': h['hid'], 'mode': h['mode'], 'step': si}
         real = {'item': rec.get('item'), 'new_item': rec.get('new_item'), 'has_item': rec['has_item'],
-                'lines_ok': rec.get('lines_ok'), 'node_ok': rec.get('node_ok')}
+                'lines_ok': rec.get('lines_ok'), 'node_ok': rec.get('node_ok'),
+                'asked_parso': rec.get('asked', 1) > 0}
         mitem = m.get('item') or {}
         model = {'item': mitem.get('gen'), 'new_item': m.get('new_item'), 'has_item': m.get('item') is not None,
-                 'lines_ok': m.get('cur') == tid, 'node_ok': mitem.get('obj') == m.get('obj')}
+                 'lines_ok': m.get('cur') == tid, 'node_ok': mitem.get('obj') == m.get('obj'),
+                 'asked_parso': m.get('asked')}
         ctx.count('cache-state', (h['hid'], si, 'script'), nontrivial=si > 0,
                   bucket='%s/%s' % (h['mode'], 'new-item' if real['new_item'] else 'reused'),
                   sample={'mode': h['mode'], 'step': si, 'real': real})
@@ -734,6 +803,19 @@ def _run(ctx):
                 ctx.tie_broken('correspondence:cache-state',
                                short({'case': case, 'what': 'item under the Script key does not carry the current text',
                                       'lines_ok': rec.get('lines_ok'), 'node_ok': rec.get('node_ok')}))
+            # the source of the Script's tree (model: obtainTree = parseBuffer, one question to parso
+            # per construction, its answer is the Script's module node)
+            revisit = si > 0 and h['texts'][si] in h['texts'][:si] and h['texts'][si] != h['texts'][si - 1]
+            ctx.count('tree-source', (h['hid'], si), nontrivial=revisit,
+                      bucket='%s/%s' % (h['mode'], 'revisit' if revisit else
+                                        'same' if si and h['texts'][si] == h['texts'][si - 1] else 'new-text'))
+            if rec.get('asked') != 1 or not rec.get('tree_from_parso') or not rec.get('tree_ok'):
+                ctx.tie_broken('correspondence:tree-source',
+                               short({'case': case, 'what': 'Script.__init__ must ask parso exactly once for the '
+                                      'buffer and hold the node parso returned, whose content is the from-scratch '
+                                      'parse of the text (model: obtainTree = parseBuffer)',
+                                      'asked': rec.get('asked'), 'tree_from_parso': rec.get('tree_from_parso'),
+                                      'tree_equals_fresh_parse': rec.get('tree_ok')}))
             bad = judge(ctx, 'oracle', h, si, rec['answers'], truth_of[(h['hid'], si)], None)
             if bad:
                 suspicious.append((h, si, bad))
@@ -771,7 +853,7 @@ def _run(ctx):
                                                              'history': bad[0][1], 'fresh': bad[0][2]}, 900))
     ctx.obligations['assumptions'] = [
         'parso diff parser result == from-scratch parse (premise of the property; checked per step by a '
-        'tree dump comparison, failing steps are counted in stream `premise` and not judged)',
+        'tree dump comparison of every answer parso gives while the Script is constructed, failing steps are counted in stream `premise` and not judged)',
         '`parse` and `compute` are parameters of the model: what a lookup computes on a tree is not modelled; '
         'stream derived-value compares every probed lookup with its uncached computation on a fresh parse',
         'weak dictionaries: an entry disappears when its item is collected (model op `gc`; harness calls '
